@@ -269,7 +269,7 @@ def run(ctx):
     srng = random.Random(ctx.rng.getrandbits(64))
     extra = [dict(id=f"regr{i}", ink=s, **hist.analyse(s)) for i, s in enumerate(REGRESSION)]
     g = hist.try_gen_ink()
-    for k in range(5 if ctx.quick() else 30):
+    for k in range(10 if ctx.quick() else 40):
         if g is None:
             break
         try:
@@ -287,7 +287,7 @@ def run(ctx):
             hists.append((p, path, ops))
     progs = progs + extra
 
-    modes = ["every", "random", "async", "mixed"] + ([] if ctx.quick() else ["random", "random", "async", "mixed"])
+    modes = ["every", "random", "async", "mixed", "random", "async"] + ([] if ctx.quick() else ["random", "mixed", "async", "mixed"])
     cases, meta = [], {}
     for (p, path, ops) in hists:
         bid = f"{p['id']}|{path}"
